@@ -848,33 +848,51 @@ def pattern_reg32(context, tree):
     return tree.value
 
 
-@thumb_isa.pattern("reg", "I16TOI32(reg)", size=0)
-@thumb_isa.pattern("reg", "U16TOI32(reg)", size=0)
-@thumb_isa.pattern("reg", "I16TOU32(reg)", size=0)
-@thumb_isa.pattern("reg", "U16TOU32(reg)", size=0)
+# An 8 or 16 bit value lives in a 32 bit register, and the high bits of that
+# register are not defined: the 8 and 16 bit add, subtract, multiply, shift
+# left, negate and invert do not reduce their result. An instruction that
+# depends on the high bits extends its operand into a new register first:
+# a cast to a wider type, a compare, a shift right, a divide or a remainder.
+def extend(context, instruction, value):
+    """Sign or zero extend the low bits of a value into a new register"""
+    d = context.new_reg(LowArmRegister)
+    context.emit(instruction(d, value))
+    return d
+
+
+@thumb_isa.pattern("reg", "I16TOI32(reg)", size=2)
+@thumb_isa.pattern("reg", "I16TOU32(reg)", size=2)
 def pattern_i16_to_i32(context, tree, c0):
-    # TODO: do something?
-    return c0
+    return extend(context, Sxth, c0)
 
 
+@thumb_isa.pattern("reg", "U16TOI32(reg)", size=2)
+@thumb_isa.pattern("reg", "U16TOU32(reg)", size=2)
+def pattern_u16_to_i32(context, tree, c0):
+    return extend(context, Uxth, c0)
+
+
+@thumb_isa.pattern("reg", "I8TOI16(reg)", size=2)
+@thumb_isa.pattern("reg", "I8TOU16(reg)", size=2)
+@thumb_isa.pattern("reg", "I8TOI32(reg)", size=2)
+@thumb_isa.pattern("reg", "I8TOU32(reg)", size=2)
+def pattern_i8toi32(context, tree, c0):
+    return extend(context, Sxtb, c0)
+
+
+@thumb_isa.pattern("reg", "U8TOI16(reg)", size=2)
+@thumb_isa.pattern("reg", "U8TOU16(reg)", size=2)
+@thumb_isa.pattern("reg", "U8TOI32(reg)", size=2)
+@thumb_isa.pattern("reg", "U8TOU32(reg)", size=2)
+def pattern_u8toi32(context, tree, c0):
+    return extend(context, Uxtb, c0)
+
+
+# A cast to a narrower type keeps the low bits:
 @thumb_isa.pattern("reg", "I32TOI16(reg)", size=0)
 @thumb_isa.pattern("reg", "I32TOU16(reg)", size=0)
 @thumb_isa.pattern("reg", "U32TOI16(reg)", size=0)
 @thumb_isa.pattern("reg", "U32TOU16(reg)", size=0)
-def pattern_i32toi16(context, tree, c0):
-    # TODO: do something?
-    return c0
-
-
-@thumb_isa.pattern("reg", "I8TOI32(reg)", size=0)
-@thumb_isa.pattern("reg", "U8TOI32(reg)", size=0)
-@thumb_isa.pattern("reg", "I8TOU32(reg)", size=0)
-@thumb_isa.pattern("reg", "U8TOU32(reg)", size=0)
-def pattern_i8toi32(context, tree, c0):
-    # TODO: do something?
-    return c0
-
-
 @thumb_isa.pattern("reg", "I32TOI8(reg)", size=0)
 @thumb_isa.pattern("reg", "I32TOU8(reg)", size=0)
 @thumb_isa.pattern("reg", "U32TOI8(reg)", size=0)
@@ -884,24 +902,7 @@ def pattern_i8toi32(context, tree, c0):
 @thumb_isa.pattern("reg", "U16TOI8(reg)", size=0)
 @thumb_isa.pattern("reg", "U16TOU8(reg)", size=0)
 def pattern_i32toi8(context, tree, c0):
-    # TODO: do something?
     return c0
-
-
-@thumb_isa.pattern("reg", "I8TOI16(reg)", size=2)
-@thumb_isa.pattern("reg", "I8TOU16(reg)", size=2)
-def pattern_i8toi16(context, tree, c0):
-    d = context.new_reg(LowArmRegister)
-    context.emit(Sxtb(d, c0))
-    return d
-
-
-@thumb_isa.pattern("reg", "U8TOI16(reg)", size=2)
-@thumb_isa.pattern("reg", "U8TOU16(reg)", size=2)
-def pattern_u8toi16(context, tree, c0):
-    d = context.new_reg(LowArmRegister)
-    context.emit(Uxtb(d, c0))
-    return d
 
 
 @thumb_isa.pattern("reg", "ADDI32(reg,reg)", size=2)
@@ -1045,8 +1046,6 @@ def pattern_mov8(context, tree, c0):
 
 
 @thumb_isa.pattern("stm", "CJMPI32(reg,reg)", size=6)
-@thumb_isa.pattern("stm", "CJMPI16(reg,reg)", size=6)
-@thumb_isa.pattern("stm", "CJMPI8(reg,reg)", size=6)
 def pattern_cjmp_signed(context, tree, c0, c1):
     op, yes_label, no_label = tree.value
     opnames = {
@@ -1065,8 +1064,6 @@ def pattern_cjmp_signed(context, tree, c0, c1):
 
 
 @thumb_isa.pattern("stm", "CJMPU32(reg,reg)", size=6)
-@thumb_isa.pattern("stm", "CJMPU16(reg,reg)", size=6)
-@thumb_isa.pattern("stm", "CJMPU8(reg,reg)", size=6)
 def pattern_cjmp_unsigned(context, tree, c0, c1):
     op, yes_label, no_label = tree.value
     opnames = {
@@ -1082,6 +1079,35 @@ def pattern_cjmp_unsigned(context, tree, c0, c1):
     context.emit(Cmp(c0, c1))
     context.emit(Bop(yes_label.name, jumps=[yes_label, jmp_ins]))
     context.emit(jmp_ins)
+
+
+# cmp compares all bits of the registers, extend 8 and 16 bit values first:
+@thumb_isa.pattern("stm", "CJMPI8(reg,reg)", size=10)
+def pattern_cjmp_i8(context, tree, c0, c1):
+    a = extend(context, Sxtb, c0)
+    b = extend(context, Sxtb, c1)
+    pattern_cjmp_signed(context, tree, a, b)
+
+
+@thumb_isa.pattern("stm", "CJMPI16(reg,reg)", size=10)
+def pattern_cjmp_i16(context, tree, c0, c1):
+    a = extend(context, Sxth, c0)
+    b = extend(context, Sxth, c1)
+    pattern_cjmp_signed(context, tree, a, b)
+
+
+@thumb_isa.pattern("stm", "CJMPU8(reg,reg)", size=10)
+def pattern_cjmp_u8(context, tree, c0, c1):
+    a = extend(context, Uxtb, c0)
+    b = extend(context, Uxtb, c1)
+    pattern_cjmp_unsigned(context, tree, a, b)
+
+
+@thumb_isa.pattern("stm", "CJMPU16(reg,reg)", size=10)
+def pattern_cjmp_u16(context, tree, c0, c1):
+    a = extend(context, Uxth, c0)
+    b = extend(context, Uxth, c1)
+    pattern_cjmp_unsigned(context, tree, a, b)
 
 
 @thumb_isa.pattern("mem", "reg", size=0)
@@ -1183,8 +1209,6 @@ def pattern_sub8(context, tree, c0, c1):
     return d
 
 
-@thumb_isa.pattern("reg", "SHRI8(reg, reg)", size=4)
-@thumb_isa.pattern("reg", "SHRI16(reg, reg)", size=4)
 @thumb_isa.pattern("reg", "SHRI32(reg, reg)", size=4)
 def pattern_shr_i32(context, tree, c0, c1):
     d = context.new_reg(LowArmRegister)
@@ -1193,12 +1217,40 @@ def pattern_shr_i32(context, tree, c0, c1):
     return d
 
 
-@thumb_isa.pattern("reg", "SHRU8(reg, reg)", size=4)
-@thumb_isa.pattern("reg", "SHRU16(reg, reg)", size=4)
 @thumb_isa.pattern("reg", "SHRU32(reg, reg)", size=4)
 def pattern_shr_u32(context, tree, c0, c1):
     d = context.new_reg(LowArmRegister)
     context.move(d, c0)
+    context.emit(Lsr(d, c1))
+    return d
+
+
+# A shift right moves the high bits of the register into the value, extend
+# 8 and 16 bit values first:
+@thumb_isa.pattern("reg", "SHRI8(reg, reg)", size=4)
+def pattern_shr_i8(context, tree, c0, c1):
+    d = extend(context, Sxtb, c0)
+    context.emit(Asr(d, c1))
+    return d
+
+
+@thumb_isa.pattern("reg", "SHRI16(reg, reg)", size=4)
+def pattern_shr_i16(context, tree, c0, c1):
+    d = extend(context, Sxth, c0)
+    context.emit(Asr(d, c1))
+    return d
+
+
+@thumb_isa.pattern("reg", "SHRU8(reg, reg)", size=4)
+def pattern_shr_u8(context, tree, c0, c1):
+    d = extend(context, Uxtb, c0)
+    context.emit(Lsr(d, c1))
+    return d
+
+
+@thumb_isa.pattern("reg", "SHRU16(reg, reg)", size=4)
+def pattern_shr_u16(context, tree, c0, c1):
+    d = extend(context, Uxth, c0)
     context.emit(Lsr(d, c1))
     return d
 
@@ -1315,13 +1367,6 @@ def pattern_rem_u32(context, tree, c0, c1):
     # Substract from the divident:
     d = context.new_reg(LowArmRegister)
     context.emit(Sub3(d, c0, d3))
-    return d
-
-
-def extend(context, instruction, value):
-    """Sign or zero extend the low bits of a value into a new register"""
-    d = context.new_reg(LowArmRegister)
-    context.emit(instruction(d, value))
     return d
 
 
